@@ -168,6 +168,9 @@ func (h volumesResourceHandler) ResolveFilter(
 			return "metadata -> ? is not null", []any{value}, nil
 		} else {
 			match := common.MetadataRegex.FindAllStringSubmatch(property, 3)
+			if operator == queries.OperatorIn {
+				return filterMetadataIn(match[0][1], value)
+			}
 
 			return "metadata @> ?", []any{map[string]any{
 				match[0][1]: value,
